@@ -39,6 +39,9 @@ var urls = []string{
 	"../../etc/passwd", "../decoy/planted", "/abs/path", "", "a\x00b", "..", ".", "notation-123456", strings.Repeat("x", 70000), strings.Repeat("../", 30) + "tmp/x",
 	// very long URLs that agree on their first 3 000 / 69 999 characters and differ only at the very end
 	"http://crl.example/" + strings.Repeat("p", 3000) + "/a.crl", "http://crl.example/" + strings.Repeat("p", 3000) + "/b.crl", strings.Repeat("x", 69999) + "y",
+	// percent-escapes that differ in their hex digits only, a bare percent sign, and what a formatting routine would make of them
+	"http://a.example/crl%20C", "http://a.example/crl%21C", "http://a.example/%41.crl", "http://a.example/%42.crl", "http://a.example/100%", "http://a.example/100%%",
+	"http://a.example/crl%!C(MISSING)", "http://a.example/%s.crl", "http://a.example/%d.crl", "http://a.example/%v.crl",
 }
 
 type entryModel struct {
@@ -309,6 +312,7 @@ func main() {
 	largeEntries(r)
 	expiredUnderContention(r)
 	failedStoreKeepsPrevious(r)
+	justExpired(r)
 	r.RequireAtLeast("get-expect-hit", 1000)
 	r.RequireAtLeast("get-expect-miss-expired", 1000)
 	r.RequireAtLeast("get-expect-miss-never-stored", 1000)
@@ -538,6 +542,50 @@ func expiredUnderContention(r *lib.Run) {
 		}
 		r.Event("set-overlapping-expired-reads")
 	}, r.PanicViolation("expired entry under contention"))
+}
+
+// justExpired: entries whose next-update instant T (a whole second, as X.509 times are) lies two seconds ahead are stored,
+// read once before T (fresh: returned) and once shortly AFTER T (the process sleeps until T + 120 ms by its own clock - the
+// clock the library reads): "afterwards the result is a cache miss" has no grace period, not even the rest of that second.
+// Only a read that starts after T is judged, and any such read must be a miss however late it runs, so a stalled machine
+// cannot raise an alarm (it can only make the read land later than intended).
+func justExpired(r *lib.Run) {
+	ctx := context.Background()
+	base := lib.TempDir("c15just")
+	defer os.RemoveAll(base)
+	c, err := crl.NewFileCache(base)
+	if err != nil {
+		panic(err)
+	}
+	far := time.Now().Add(10 * 365 * 24 * time.Hour)
+	T := time.Now().Truncate(time.Second).Add(2 * time.Second)
+	cases := map[string]*corecrl.Bundle{
+		"http://just.example/base-expires.crl":  {BaseCRL: lib.MintCRL(920001, T, 2000)},
+		"http://just.example/delta-expires.crl": {BaseCRL: lib.MintCRL(920002, far, 2000), DeltaCRL: lib.MintCRL(920003, T, 2000)},
+		"http://just.example/both-expire.crl":   {BaseCRL: lib.MintCRL(920004, T, 2000), DeltaCRL: lib.MintCRL(920005, T, 2000)},
+	}
+	for u, b := range cases {
+		if err := c.Set(ctx, u, b); err != nil {
+			panic(err)
+		}
+		if got, err := c.Get(ctx, u); time.Now().Before(T) && (err != nil || got == nil) {
+			r.Violation(map[string]string{"kind": "fresh-entry-not-returned"}, fmt.Sprintf("%s: read before the next-update instant returned err=%v", u, err), nil)
+		}
+	}
+	time.Sleep(time.Until(T.Add(120 * time.Millisecond)))
+	for u := range cases {
+		started := time.Now()
+		got, err := c.Get(ctx, u)
+		r.Eval("just-expired|" + u)
+		if !started.After(T) {
+			r.Inconclusive("the clock stepped backwards during the just-expired probe")
+			continue
+		}
+		r.Event("reads-within-moments-after-next-update")
+		if got != nil || !errors.Is(err, corecrl.ErrCacheMiss) {
+			r.Violation(map[string]string{"kind": "expired-not-a-miss", "how_long_ago": "moments"}, fmt.Sprintf("%s: a read that started %v after the next-update instant returned (bundle=%v, err=%v), expected a cache miss", u, started.Sub(T), got != nil, err), nil)
+		}
+	}
 }
 
 // failedStoreKeepsPrevious: "last stored" means last SUCCESSFULLY stored. A store that fails part-way (here: a writer
